@@ -87,7 +87,26 @@ func c15reflectKind(e ast.Expr) (string, bool) {
 }
 
 func c15parseGo(fset *token.FileSet, repo string, rel ...string) (*ast.File, error) {
-	return parser.ParseFile(fset, filepath.Join(append([]string{repo}, rel...)...), nil, 0)
+	f, err := parser.ParseFile(fset, filepath.Join(append([]string{repo}, rel...)...), nil, 0)
+	if err != nil {
+		return nil, err
+	}
+	// behaviour-preserving rewrites are undone before the translation (c15_normalize.go); should the normaliser
+	// fail on a shape it does not expect, the file is taken as it is
+	if !c15TryNormalize(f) {
+		return parser.ParseFile(fset, filepath.Join(append([]string{repo}, rel...)...), nil, 0)
+	}
+	return f, nil
+}
+
+func c15TryNormalize(f *ast.File) (ok bool) {
+	defer func() {
+		if recover() != nil {
+			ok = false
+		}
+	}()
+	c15Normalize(f)
+	return true
 }
 
 func c15topFunc(f *ast.File, name string) *ast.FuncDecl {
@@ -199,17 +218,18 @@ func (t *c15ftTr) cond(e ast.Expr) (string, bool, error) {
 				op = "||"
 			}
 			return "(" + l + " " + op + " " + r + ")", false, nil
-		case token.LSS, token.EQL, token.NEQ:
-			// i < len(paths)-1 , i == len(paths)-1
+		case token.LSS, token.EQL, token.NEQ, token.GEQ:
+			// i < len(paths)-1 , i == len(paths)-1 (i is the index of the range loop over paths: != says the same as <,
+			// >= the same as ==)
 			if t.inLoop && c15sq(x.X) == t.idx && c15sq(x.Y) == "len("+t.paths+")-1" {
 				switch x.Op {
-				case token.LSS:
+				case token.LSS, token.NEQ:
 					return "(rt_more rest)", false, nil
-				case token.EQL:
+				case token.EQL, token.GEQ:
 					return "(negb (rt_more rest))", false, nil
 				}
 			}
-			if x.Op == token.LSS {
+			if x.Op == token.LSS || x.Op == token.GEQ {
 				break
 			}
 			wrap := func(s string, partial bool) string {
